@@ -6,6 +6,10 @@
   write <tag> <id> <addr> <hexdata> <flush 0|1> <progress 0|1>
   pkt <chan> <hexdata>             a packet received on port MEM (chan 1..3; the info channel is outside the model)
   disc                             the disconnected callback
+  dreset <id> code|fixed|<4 bits> | dquery <tag> <rid> <hasFail> | dread <tag> <base> <address> <len> <rid> <hasFail>
+  dwrite <tag> <base> <address> <hex> <rid> <hasFail> <progress> | dpkt <chan> <hex> | ddisc | ddisconnect
+                                   the DeckMemoryManager client (replies carry the manager's callbacks in addition:
+                                   DQ:<rid> DQF:<rid> DR:<rid>:<addr>:<hex> DRF:<rid>:<addr> DW:<rid>:<addr> DWF:<rid>:<addr>)
   treset <id> | tdisc | tread <tag> <start> <size> <cb> | twrite <tag> <start> <size> <cb> | tpkt <chan> <hex>
                                    the MemoryTester client (replies carry `<tester outs> V<valid>` in addition)
   reply: `<res> <outs> L<lock>`  res = T | F | N | E:<enum> | H ;  outs = `;`-joined or `-`:
@@ -49,6 +53,8 @@ structure DSt where
   v : Variant := Variant.code
   st : St := St.init
   t : Tester := Tester.new 0
+  dv : DeckVariant := DeckVariant.code
+  dk : Deck := Deck.new 0
 
 def showTOut : TOut → String
   | .updateFinished cb => s!"TU:{cb}"
@@ -58,6 +64,26 @@ def showTOut : TOut → String
 def showWithTester (r : Step) (t : Tester) (touts : List TOut) : String :=
   let ts := if touts.isEmpty then "-" else ";".intercalate (touts.map showTOut)
   s!"{showStep r} {ts} V{if t.valid then 1 else 0}"
+
+def showDOut : DOut → Option String
+  | .queryDone r => some s!"DQ:{r}"
+  | .queryFailed r => some s!"DQF:{r}"
+  | .readDone r a da => some s!"DR:{r}:{a}:{toHex da}"
+  | .readFailed r a => some s!"DRF:{r}:{a}"
+  | .writeDone r a => some s!"DW:{r}:{a}"
+  | .writeFailed r a => some s!"DWF:{r}:{a}"
+  | .silent _ _ => none          -- ghost: nothing is called
+
+def showWithDeck (r : Step) (douts : List DOut) : String :=
+  let ds := douts.filterMap showDOut
+  s!"{showStep r} {if ds.isEmpty then "-" else ";".intercalate ds}"
+
+def parseDeckVariant? (s : String) : Option DeckVariant :=
+  if s == "code" then some DeckVariant.code
+  else if s == "fixed" then some DeckVariant.fixed
+  else match s.toList.map (fun c => if c == '1' then some true else if c == '0' then some false else none) with
+    | [some a, some b, some c, some e] => some ⟨a, b, c, e⟩
+    | _ => none
 
 def dstep (d : DSt) (ws : List String) : DSt × String :=
   match ws with
@@ -87,6 +113,41 @@ def dstep (d : DSt) (ws : List String) : DSt × String :=
   | ["disc"] =>
     let r := step d.v d.st .disconnect
     ({ d with st := r.st }, showStep r)
+  | ["dreset", id, dv] =>
+    match id.toNat?, parseDeckVariant? dv with
+    | some i, some v => ({ d with dk := Deck.new i, dv := v }, "ok")
+    | _, _ => (d, "bad-op")
+  | ["dquery", tag, rid, hf] =>
+    match tag.toNat?, rid.toNat?, parseBool? hf with
+    | some t, some r, some h =>
+      let (dk', st) := deckQuery d.dv d.st d.dk t r h
+      ({ d with st := st.st, dk := dk' }, showWithDeck st [])
+    | _, _, _ => (d, "bad-op")
+  | ["dread", tag, base, address, len, rid, hf] =>
+    match tag.toNat?, base.toNat?, address.toNat?, len.toNat?, rid.toNat?, parseBool? hf with
+    | some t, some b, some a, some l, some r, some h =>
+      let (dk', st) := deckRead d.dv d.st d.dk t b a l r h
+      ({ d with st := st.st, dk := dk' }, showWithDeck st [])
+    | _, _, _, _, _, _ => (d, "bad-op")
+  | ["dwrite", tag, base, address, data, rid, hf, prog] =>
+    match tag.toNat?, base.toNat?, address.toNat?, ofHex? data, rid.toNat?, parseBool? hf, parseBool? prog with
+    | some t, some b, some a, some da, some r, some h, some p =>
+      let (dk', st) := deckWrite d.v d.st d.dk t b a da r h p
+      ({ d with st := st.st, dk := dk' }, showWithDeck st [])
+    | _, _, _, _, _, _, _ => (d, "bad-op")
+  | ["dpkt", chan, data] =>
+    match chan.toNat?, ofHex? data with
+    | some c, some da =>
+      if c == Gen.C06.chanInfo || c > 3 then (d, "bad-op") else
+      let (dk', st, douts) := clientStep d.dv d.v d.st d.dk (.pkt c da)
+      ({ d with st := st.st, dk := dk' }, showWithDeck st douts)
+    | _, _ => (d, "bad-op")
+  | ["ddisc"] =>
+    let (dk', st, douts) := clientStep d.dv d.v d.st d.dk .disconnect
+    ({ d with st := st.st, dk := dk' }, showWithDeck st douts)
+  | ["ddisconnect"] =>
+    -- DeckMemoryManager.disconnect(): every record forgotten
+    ({ d with dk := { d.dk with query := none, read := none, write := none } }, "ok")
   | ["treset", id] =>
     match id.toNat? with
     | some i => ({ d with t := Tester.new i }, "ok")
